@@ -101,6 +101,16 @@ func (e *Eval) Prepare(flags ...[]byte) error {
 	// add the program to the bytecode, constants and functions which
 	// the earlier call left behind.
 	//
+	// If this call fails the evaluator keeps the program it had, which
+	// the virtual machine of an earlier, successful, call still runs.
+	//
+	oldConstants, oldInstructions, oldFunctions := e.constants, e.instructions, e.functions
+	prepared := false
+	defer func() {
+		if !prepared {
+			e.constants, e.instructions, e.functions = oldConstants, oldInstructions, oldFunctions
+		}
+	}()
 	e.constants = nil
 	e.instructions = nil
 	e.functions = make(map[string]environment.UserFunction)
@@ -178,6 +188,7 @@ func (e *Eval) Prepare(flags ...[]byte) error {
 	//
 	// All done; no errors.
 	//
+	prepared = true
 	return nil
 }
 
